@@ -191,6 +191,11 @@ EXTRA_PROGRAMS: Dict[str, Dict[str, Any]] = {
     "expression-with-many-constants": {"root.yaml": {"constants": {**{f"N_CH{i}": i + 1 for i in range(14)}, "N_TOTAL": " + ".join(f"N_CH{i}" for i in range(14)),
                                                                    "N_ELEVEN": " + ".join(f"N_CH{i}" for i in range(11)), "N_TWICE": "N_TOTAL * 2"},
                                                      "message_defs": {"MC": {"id": 4119, "fields": {"a": "int16[N_TOTAL]", "b": "char[" + " + ".join(f"N_CH{i}" for i in range(12)) + "]"}}}}},
+    # sections written out but left empty (`name: null`, as in the README's template), in the root file and in an imported one
+    "explicit-null-sections": {"root.yaml": "imports:\n  - lib/types.yaml\nconstants: null\nstring_constants: null\naliases: null\nhost_ids: null\nmodule_ids: null\nstruct_defs: null\n"
+                                            "message_defs:\n  NS_MSG:\n    id: 4121\n    fields:\n      t: NS_T\n      n: int32[NS_N]\n",
+                               "lib/types.yaml": "imports: null\nconstants:\n  NS_N: 3\nstring_constants: null\naliases: null\nhost_ids: null\nmodule_ids: null\n"
+                                                 "struct_defs:\n  NS_T:\n    fields:\n      a: int32\nmessage_defs: null\n"},
     "nested-depth": {"root.yaml": {"struct_defs": {"L1": {"fields": {"a": "int32"}}, "L2": {"fields": {"l": "L1[2]", "b": "int32"}}, "L3": {"fields": {"l": "L2[2]", "c": "int32"}}},
                                    "message_defs": {"MS": {"id": 4104, "fields": {"l": "L3[2]", "m": "L1"}}}}},
     "imports-chain": {"root.yaml": {"imports": ["a.yaml"], "message_defs": {"MS": {"id": 4105, "fields": {"s": "SB", "t": "ALB"}}}},
